@@ -49,9 +49,11 @@ func Harness_C04_leaf() {
 	h, err := LeafHashForLeaf(&leaf)
 	ref := sha256.Sum256(append([]byte{0x00}, want...))
 	vAssert(err == nil && h == ref, "leaf hash is SHA-256(0x00 || MerkleTreeLeaf)")
-	sct := SignedCertificateTimestamp{SCTVersion: V1, Timestamp: te.Timestamp, Extensions: ext}
+	// the signed timestamp and extensions are the SCT's own, the entry comes from the leaf
+	sctTS, sctExt := vU64("sct-timestamp"), vBytes("sct-ext", vChoice("sct-ext-len", 3))
+	sct := SignedCertificateTimestamp{SCTVersion: V1, Timestamp: sctTS, Extensions: sctExt}
 	in, err := SerializeSCTSignatureInput(sct, LogEntry{Leaf: leaf})
-	vAssert(err == nil && bytes.Equal(in, rfcSCTSignatureInput(te.Timestamp, precert, cert, ikh, tbs, ext)), "SCT signature input equals RFC 6962 3.2")
+	vAssert(err == nil && bytes.Equal(in, rfcSCTSignatureInput(sctTS, precert, cert, ikh, tbs, sctExt)), "SCT signature input equals RFC 6962 3.2 (the SCT's timestamp and extensions, the leaf's entry)")
 	// decode side: exactly these bytes decode to the same leaf with nothing left over
 	var back MerkleTreeLeaf
 	rest, err := tls.Unmarshal(want, &back)
